@@ -23,6 +23,8 @@ def instances(tier):
         out.append({'entry': 'h_hashdic_collide', 'params': [n, r], 'bound': '%d inserts then %d removes of 2-byte keys over {A,B,a,b} ("Ab"/"BA" collide)' % (n, r)})
     for p in ([2, 1, 7, 4], [2, 2, 3, 8]) if q else ([2, 1, 7, 4], [2, 2, 3, 8], [3, 1, 5, 2], [3, 2, 7, 4], [3, 3, 3, 16]):
         out.append({'entry': 'h_set_algebra', 'params': p, 'bound': 'sets of %d and %d symbolic elements in 0..%d, second copy built in reverse order with table size %d' % tuple(p)})
+    out.append({'entry': 'h_hash_grow', 'params': [230 if q else 300], 'bound': 'default HashMap filled with %d keys i*65537+3 (crosses the growth threshold, hash bits above bit 16), then find/overwrite/remove/enumerate at a symbolic key' % (230 if q else 300)})
+    out.append({'entry': 'h_map_convert', 'params': [], 'bound': 'Map<int,int> with every 3 keys in -3..3 converted to Map<unsigned,int>'})
     return out
 
 
